@@ -16,23 +16,29 @@ def rangeInt (a b : Int) : List Int := (List.range (b - a).toNat).map (fun (i : 
     random draws, the generator yields each index `0 .. maximum-1` exactly once. -/
 theorem indices_perm (maximum d1 d2 : Nat) (hm : 0 < maximum) :
     (indices maximum d1 d2).Perm (List.range maximum) := by
-  sorry
+  unfold indices
+  rw [← Nat.add_zero (fuelFor maximum), Proofs.C12.loop_fuelFor maximum d1 d2 0 hm]
+  exact Proofs.C12.orbitHead_perm maximum d1 d2 hm
 
 /-- **Permutation.** `list(random_range(start, stop))` is a permutation of `[start, stop)` for every
     `start < stop` and every seed `(d1, d2)`. -/
 theorem random_range_perm (start stop : Int) (d1 d2 : Nat) (h : start < stop) :
     (randomRange start stop d1 d2).Perm (rangeInt start stop) := by
-  sorry
+  unfold randomRange rangeInt
+  exact (indices_perm _ d1 d2 (by omega)).map _
 
 /-- **…and then stops.** The loop ends because `found = maximum`, not because the model's fuel ran
     out: any larger fuel gives the same list. -/
 theorem fuel_sufficient (maximum d1 d2 extra : Nat) (hm : 0 < maximum) :
     loop maximum d2 (fuelFor maximum + extra) 0 d1 = loop maximum d2 (fuelFor maximum) 0 d1 := by
-  sorry
+  have h0 := Proofs.C12.loop_fuelFor maximum d1 d2 0 hm
+  rw [Nat.add_zero] at h0
+  rw [Proofs.C12.loop_fuelFor maximum d1 d2 extra hm, h0]
 
 theorem random_range_empty (start stop : Int) (d1 d2 : Nat) (h : stop ≤ start) :
     randomRange start stop d1 d2 = [] := by
-  sorry
+  have h0 : (stop - start).toNat = 0 := by omega
+  simp [randomRange, indices, fuelFor, h0, loop]
 
 /-! ### UpdatableRandomRange, for every generator oracle that yields permutations -/
 
@@ -42,13 +48,17 @@ def GoodMk (mk : Mk) : Prop := ∀ n a b, a < b → (mk n a b).Perm (rangeInt a 
 /-- The real generator (any draw stream `ds`) is a `GoodMk`. -/
 theorem randomRange_goodMk (ds : Nat → Nat × Nat) :
     GoodMk (fun n a b => randomRange a b (ds n).1 (ds n).2) := by
-  sorry
+  intro n a b hab
+  exact random_range_perm a b _ _ hab
 
 /-- **No value is ever produced twice**, for every interleaving of next / extend / move
     (including operations that fail their assertion). -/
 theorem urr_no_repeat (mk : Mk) (hmk : GoodMk mk) (a b : Int) (s : St) (hs : create mk a b = some s)
     (ops : List Op) : (values (run mk s ops).2).Nodup := by
-  sorry
+  have h0 := Proofs.C12.create_inv1 mk hmk a b s hs
+  have h1 := (Proofs.C12.run_inv1 mk hmk ops s [] h0).nd
+  rw [List.nil_append] at h1
+  exact List.Nodup.of_append_left h1
 
 /-- States reachable from a freshly created object by any operation sequence. -/
 def Reachable (mk : Mk) (s : St) : Prop :=
@@ -58,21 +68,24 @@ def Reachable (mk : Mk) (s : St) : Prop :=
 theorem urr_value_in_current_range (mk : Mk) (hmk : GoodMk mk) (s : St) (hr : Reachable mk s)
     (s' : St) (v : Int) (h : step mk s Op.next = (s', Out.value v)) :
     s'.u.min ≤ v ∧ v < s'.u.curMax := by
-  sorry
+  obtain ⟨a, b, s0, ops, hs0, rfl⟩ := hr
+  have h0 := Proofs.C12.create_inv1 mk hmk a b s0 hs0
+  have h1 := Proofs.C12.run_inv1 mk hmk ops s0 [] h0
+  exact Proofs.C12.next_value_in_range mk hmk _ _ h1 s' v h
 
 /-- **A move to a disjoint higher range**: a successful `setRange a b` with a new minimum requires
     `a ≥` the old top, and makes `[a, b)` the current range — so by
     `urr_value_in_current_range` only values of the new range appear afterwards. -/
 theorem urr_move_sets_range (mk : Mk) (s s' : St) (a b : Int)
     (h : step mk s (Op.setRange a b) = (s', Out.ok)) (hne : a ≠ s.u.min) :
-    s.u.origMax ≤ a ∧ s'.u.min = a ∧ s'.u.curMax = b ∧ s'.u.gen = mk s.made a b := by
-  sorry
+    s.u.origMax ≤ a ∧ s'.u.min = a ∧ s'.u.curMax = b ∧ s'.u.gen = mk s.made a b :=
+  Proofs.C12.move_sets_range mk s s' a b h hne
 
 /-- The minimum changes only through a successful move. -/
 theorem urr_min_changes_only_by_move (mk : Mk) (s s' : St) (op : Op) (o : Out)
     (h : step mk s op = (s', o)) (hne : s'.u.min ≠ s.u.min) :
-    ∃ a b, op = Op.setRange a b ∧ o = Out.ok ∧ s.u.origMax ≤ a ∧ s'.u.min = a := by
-  sorry
+    ∃ a b, op = Op.setRange a b ∧ o = Out.ok ∧ s.u.origMax ≤ a ∧ s'.u.min = a :=
+  Proofs.C12.min_changes_only_by_move mk s s' op o h hne
 
 /-- A `setRange` is an *extension* when it keeps the minimum and does not lower the bound. -/
 def ExtendOnly (lo : Int) : Int → List Op → Prop
@@ -80,12 +93,25 @@ def ExtendOnly (lo : Int) : Int → List Op → Prop
   | cur, Op.next :: ops => ExtendOnly lo cur ops
   | cur, Op.setRange x y :: ops => x = lo ∧ cur ≤ y ∧ ExtendOnly lo y ops
 
+/-- `ExtendOnly` is (a verbatim copy of) the helper-file predicate `ExtendOnlyP`. -/
+theorem extendOnly_iff {lo cur : Int} {ops : List Op} :
+    ExtendOnly lo cur ops ↔ Proofs.C12.ExtendOnlyP lo cur ops := by
+  induction ops generalizing cur with
+  | nil => simp [ExtendOnly, Proofs.C12.ExtendOnlyP]
+  | cons op ops ih =>
+    cases op with
+    | next => simp only [ExtendOnly, Proofs.C12.ExtendOnlyP]; exact ih
+    | setRange x y => simp only [ExtendOnly, Proofs.C12.ExtendOnlyP]; rw [ih]
+
 /-- **Raising the upper bound never fails** (this is what `random_reference … unique: true` does
     while the target table grows; refuted on the pinned commit — D06 — and true after the fix). -/
 theorem urr_extend_never_fails (mk : Mk) (hmk : GoodMk mk) (a b : Int) (s : St)
     (hs : create mk a b = some s) (ops : List Op) (hext : ExtendOnly a b ops) :
     Out.assertion ∉ (run mk s ops).2 := by
-  sorry
+  have hext' : Proofs.C12.ExtendOnlyP a b ops := extendOnly_iff.1 hext
+  obtain ⟨hi0, hb⟩ := Proofs.C12.create_inv2 mk hmk a b s hs
+  rw [← hb] at hext'
+  exact (Proofs.C12.run_inv2 mk hmk a ops s [] hi0 hext').2
 
 /-- **Every value below the final bound is eventually produced**: after any extension-only history,
     draining the range yields, together with what was already produced, exactly a permutation of
@@ -95,8 +121,8 @@ theorem urr_exhaustive (mk : Mk) (hmk : GoodMk mk) (a b : Int) (s : St)
     let s' := (run mk s ops).1
     let n := (s'.u.curMax - a).toNat
     (values ((run mk s ops).2 ++ (run mk s' (List.replicate n Op.next)).2)).Perm (rangeInt a s'.u.curMax)
-    ∧ (step mk (run mk s' (List.replicate n Op.next)).1 Op.next).2 = Out.stop := by
-  sorry
+    ∧ (step mk (run mk s' (List.replicate n Op.next)).1 Op.next).2 = Out.stop :=
+  Proofs.C12.exhaustive mk hmk a b s hs ops (extendOnly_iff.1 hext)
 
 /-! ### Non-vacuity: concrete instances of the hypotheses -/
 
